@@ -877,6 +877,29 @@ def emit_bindings(verif_root, ops, smithy, op_names, consts):
         for o in op_names:
             L.append(f"  | .{o} => [" + ", ".join(b(*t) for t in fn(o)) + "]")
         L.append("")
+    # --- POST-object form: the member <- form-field table of `deserialize_http_multipart` (exactly one operation has one)
+    mp_ops = [o for o in op_names if ops[o]["inputs_mp"] is not None]
+    if len(mp_ops) != 1:
+        raise Unrecognised(f"expected exactly one operation with deserialize_http_multipart, found {mp_ops}")
+    L.append("/-- where `deserialize_http_multipart` takes a member of the POST-object input from -/")
+    L.append("inductive FormSrc where\n  | pathBucket\n  | field (name : List UInt8) (required : Bool)\n  | fieldPrefix (pfx : List UInt8)\n  | file\n  | fileLength\n  deriving DecidableEq, Repr")
+    L.append("structure FormBinding where\n  member : List UInt8\n  src : FormSrc\n  fmt : TsFmt\n  deriving DecidableEq, Repr")
+    L.append(f"/-- the operation a POST form upload is decoded to -/\ndef formOp : Op := .{mp_ops[0]}")
+
+    def fb(member, kind, field, fmt):
+        src = {
+            "label": ".pathBucket",
+            "field-required": f".field {lean_str_bytes(field)} true",
+            "field": f".field {lean_str_bytes(field)} false",
+            "field-prefix": f".fieldPrefix {lean_str_bytes(field)}",
+            "file": ".file",
+            "file-length": ".fileLength",
+        }[kind]
+        return f"⟨{lean_str_bytes(norm_member(member))}, {src}, .{fmtmap[TS_FMT.get(fmt)]}⟩"
+
+    L.append("/-- T2: `PutObject::deserialize_http_multipart`, member by member (sorted by member name) -/")
+    L.append("def implFormInputs : List FormBinding := [" + ", ".join(fb(*t) for t in sorted(ops[mp_ops[0]]["inputs_mp"])) + "]")
+    L.append("")
     statmap = {"OK": 200, "NO_CONTENT": 204, "CREATED": 201, "ACCEPTED": 202, "PARTIAL_CONTENT": 206}
     L.append("/-- success status written by `serialize_http` -/")
     L.append("def implStatus : Op → Nat")
